@@ -1,7 +1,7 @@
 (* C14 — spatial indices report exactly the overlapping pairs.
    Only statements closed by `exact`, each followed by Print Assumptions. *)
 From Coq Require Import ZArith List Bool.
-From MV Require Import Bvh.BvhDefs Bvh.BvhModel Bvh.BvhSmall.
+From MV Require Import Bvh.BvhDefs Bvh.BvhModel Bvh.BvhSmall Bvh.Sweep2Defs Bvh.Sweep2Model Bvh.Kd2Model.
 Import ListNotations.
 Local Open Scope Z_scope.
 
@@ -60,3 +60,31 @@ Print Assumptions radix_tree_wf_small.
 Theorem spread_bits3_correct : forall v, 0 <= v < 1024 -> spread_bits3 v = spread_ref 10 v.
 Proof. exact spread_bits3_ok. Qed.
 Print Assumptions spread_bits3_correct.
+
+(* 2-D edge-pair broad phase, x-sorted sweep branch of CollectIntersectionPairs
+   (used below kEdgePairBvhThreshold edges): for every list of valid boxes and
+   every symmetric skip predicate (SharedEndpointSafelySkippable), the reported
+   pairs are exactly the index pairs a < b whose boxes overlap and are not
+   skipped.  (The BVH branch reuses CreateRadixTree and the same stack traversal
+   as the 3-D collider: collisions_exact_box with z = 0.) *)
+Theorem sweep_pairs_exact :
+  forall (skip : Z -> Z -> bool) (boxes : list box2),
+    (forall i j, skip i j = skip j i) ->
+    Forall valid2 boxes ->
+    forall a b, In (a, b) (sweep_pairs skip boxes) <->
+      (a < b /\ exists ba bb, box_at boxes a = Some ba /\ box_at boxes b = Some bb /\
+                 overlap2 ba bb = true /\ skip a b = false).
+Proof. intros skip boxes Hs Hv. exact (sweep_pairs_spec skip Hs boxes Hv). Qed.
+Print Assumptions sweep_pairs_exact.
+
+(* Polygon k-d tree: QueryTwoDTree on the tree BuildTwoDTree builds from ANY
+   point list reports exactly the points inside the (closed) rectangle, each as
+   often as it occurs. The explicit 64-entry stack of the C++ is modelled by
+   recursion: its depth is at most log2(n)+1 (not proved here). *)
+Theorem kd_query_exact_multiset :
+  forall (points : list pt) (r : rect),
+    Permutation.Permutation points (build_two_d_tree points) /\
+    Permutation.Permutation (query_two_d_tree (build_two_d_tree points) r)
+                            (filter (contains r) (build_two_d_tree points)).
+Proof. exact kd_query_exact_perm. Qed.
+Print Assumptions kd_query_exact_multiset.
